@@ -24,6 +24,9 @@
 #include <parmcb/forestindex.hpp>
 #include <parmcb/spvecgf2.hpp>
 #include <parmcb/util.hpp>
+#ifdef PARMCB_VERIF
+#include <parmcb/detail/verif_hooks.hpp>
+#endif
 
 namespace parmcb {
 
@@ -91,6 +94,10 @@ namespace parmcb {
                     const bool use_hidden_edges = false;
                     auto res = bidirectional_signed_dijkstra(g, weight_map, signed_edges, std::set<Edge> { },
                             use_hidden_edges, v, true, v, false, std::get<2>(best), std::get<1>(best));
+#ifdef PARMCB_VERIF
+                    parmcb::verif::report_search(k, false, boost::get(boost::vertex_index, g, v), std::set<Edge> { },
+                            forest_index, std::get<2>(best), std::get<1>(best), std::get<2>(res), std::get<1>(res));
+#endif
                     if (std::get<2>(res) && (!std::get<2>(best) || compare(std::get<1>(res), std::get<1>(best)))) {
                         best = res;
                         assert(std::get<2>(best));
@@ -108,6 +115,10 @@ namespace parmcb {
                     auto se_u = boost::target(se, g);
                     auto res = bidirectional_signed_dijkstra(g, weight_map, signed_edges, hidden_edges, true, se_v,
                             true, se_u, true, std::get<2>(best), std::get<1>(best));
+#ifdef PARMCB_VERIF
+                    parmcb::verif::report_search(k, true, forest_index(se), hidden_edges, forest_index,
+                            std::get<2>(best), std::get<1>(best), std::get<2>(res), std::get<1>(res));
+#endif
                     hidden_edges.erase(hidden_edges.begin());
                     if (std::get<2>(res) && std::get<0>(res).find(se) == std::get<0>(res).end()) {
                         std::get<1>(res) += boost::get(weight_map, se);
